@@ -305,6 +305,34 @@ example : (rrun (Recv.new 65535 100) [.data 1 10 true false, .data 3 40000 false
     (rrun (Recv.new 65535 100) [.data 1 10 true false, .data 3 40000 false false, .flush [0, 1]]).announced = 40010 := by
   decide +kernel
 
+/-- DATA that lands on a stream sozu has already closed, reset or refused
+    (`known = false`: RST_STREAM(STREAM_CLOSED) is queued, the payload still goes
+    through `handle_data_frame` on stream 0) is credited to the connection window
+    like any other DATA: after any history, such a frame of `len` bytes raises
+    the consumed total by `len` and the accounting identity still holds, i.e.
+    those bytes are announced, queued for the next flush, under the half-window
+    threshold, or reported lost by the bounded queue — never silently gone. -/
+theorem C14_wu_replenish_closed_stream (icw ms : Nat) (ops : List ROp) (sid len : Nat) (es : Bool) :
+    let r := rrun (Recv.new icw ms) ops
+    let r' := rstep r (.data sid len false es)
+    r'.consumed = r.consumed + len ∧
+    r'.consumed = r'.announced + sumK r'.pending 0 + r'.since + r'.lost ∧ r'.since ≤ icw / 2 :=
+  wu_replenish_closed_stream icw ms ops sid len es
+
+/-- sixteen rejected uploads of 65535 bytes: the code gives the window back
+    (589815 bytes announced at the half-window threshold, the other 458745
+    counted toward the next one)… -/
+example :
+    let r := rrun (Recv.new 1048576 100) ((List.replicate 16 (ROp.data 1 65535 false false)) ++ [.flush [0]])
+    r.consumed = 1048560 ∧ r.announced = 589815 ∧ r.since = 458745 ∧ r.lost = 0 := by decide +kernel
+
+/-- …while skipping those payloads without crediting them (`discardData`) breaks
+    the identity: the peer has 16 bytes of connection window left for ever. -/
+theorem C14_wu_replenish_closed_stream_needs_crediting :
+    let r := (List.replicate 16 65535).foldl discardData (Recv.new 1048576 100)
+    r.consumed = 1048560 ∧ r.announced + sumK r.pending 0 + r.since + r.lost = 0 ∧
+    r.icw - (r.consumed - r.announced) = 16 := by decide +kernel
+
 /-- stream level (`handle_data_frame` queues `wire_payload_len` for the stream on
     every DATA frame that does not end it): the queue conserves credit — what
     is queued for the stream afterwards plus what the call reports as lost is
